@@ -298,12 +298,13 @@ pub fn main(args: &[String]) -> i32 {
         let hugemax = o.num("hugemax", 0u32) == 1;
         // --hugemax: every third step is a put (of the largest sizes), the step after it a flush
         let r = if hugemax && step % 3 == 0 { 0 } else if hugemax && step % 3 == 1 { 74 } else { rng.random_range(0..100) };
-        // --hugepair: a cycle that fills three neighbouring large extents, acknowledges them, deletes the first two (their
-        // retired runs merge into one long free run headed by the first one's retirement marker), acknowledges that, and
-        // writes a large record again: where in the merged run it is placed decides whether stale markers stay in front of it
+        // --hugepair: a cycle over three neighbouring extents of about 100, 200 and 257..336 blocks: all acknowledged, the
+        // middle one deleted (acknowledged), the large one replaced twice - its old extent and the deleted neighbour merge into
+        // one long free run headed by the neighbour's retirement marker, and the next large record goes into that run: where
+        // in the run it is placed decides whether stale markers stay in front of it
         let hugepair = o.num("hugepair", 0u32) == 1 && keys.len() >= 3;
         let (ki, r) = if hugepair {
-            match step % 9 { 0 => (0, 0), 1 => (1, 0), 2 => (2, 0), 4 => (0, 50), 5 => (1, 50), 7 => (2, 0), _ => (ki, 74) }
+            match step % 9 { 0 => (0, 0), 1 => (1, 0), 2 => (2, 0), 4 => (1, 50), 6 => (2, 0), 8 => (2, 0), _ => (ki, 74) }
         } else { (ki, r) };
         let (key, kid) = if hugepair { (keys[ki].clone(), ki + 1) } else { (key, kid) };
         let call_idx = calls.len() as u64;
@@ -321,6 +322,9 @@ pub fn main(args: &[String]) -> i32 {
                     if hugemax && step % 3 == 0 {
                         n = 4 * 1024 * 1024 - [0usize, 1, 0, 2][(step / 3) % 4];
                     }
+                }
+                if hugepair && step % 9 < 2 {
+                    n = [100usize, 200][step % 9] * 4096 - 300 - rng.random_range(0..3000usize);
                 }
                 if edge_pct > 0 && rng.random_range(0..100) < edge_pct && key.len() < 1000 {
                     // record sizes at a block boundary, for the header of this AND of the other formats
